@@ -397,6 +397,10 @@ def rw_try(body, retexpr, cnt):
                 raise ExtractionError('catch without block')
             hc = match_close(body, k, '{', '}')
             hbody = body[k + 1:hc]
+            # `throw;` in a handler re-raises the exception being handled: the ghost type/code are still those of the throw
+            if re.search(r'(?<![\w])throw\s*;', hbody):
+                hbody = re.sub(r'(?<![\w])throw\s*;', '{ verif_thrown = 1; VERIF_UNWIND_HERE; }', hbody)
+                cnt.hit('R14_rethrow')
             if decl == '...':
                 cond = 'verif_thrown'
             else:
@@ -1204,6 +1208,14 @@ def do_extract(spec, cnt, exc_types, info):
     params, ntid = re.subn(r'\b([A-Za-z_]\w*)\s*<\s*([A-Za-z_]\w*)\s*>', r'\1_\2', params)
     if ntid:
         cnt.hit('R17_template_id_param', ntid)
+    # R17b (additive): template-ids the pattern above does not take -- several arguments, pointer arguments, multi-word
+    # arguments: `RefHashTableOf<XSAnnotation, PtrHasher>` -> RefHashTableOf_XSAnnotation_PtrHasher,
+    # `ValueVectorOf<SchemaElementDecl*>` -> ValueVectorOf_SchemaElementDecl_p, `ValueVectorOf<unsigned int>` -> ValueVectorOf_unsigned_int
+    def _mangle_tid(mm):
+        return mm.group(1) + '_' + '_'.join(mm.group(2).replace('*', ' p ').replace(',', ' ').split())
+    params, ntid2 = re.subn(r'\b([A-Za-z_]\w*)\s*<\s*([A-Za-z_][\w\s,\*]*?)\s*>', _mangle_tid, params)
+    if ntid2:
+        cnt.hit('R17b_template_id_param', ntid2)
     if spec.get('constref_byvalue'):
         # R18: `const T& x` with T a scalar type is passed by value (same meaning as long as the body neither takes the
         # address of x nor aliases it -- the body is checked for `&x`); needed where call sites pass rvalues / assignment
